@@ -15,6 +15,7 @@ from sa.inline import cond_value_candidates, guard_candidates  # noqa: E402
 from sa.model import Canon  # noqa: E402
 
 funcs, aliases, cvs, guards = [], [], [], []
+stored_attrs = set()  # names of attributes assigned anywhere (obj.<a> = ..., class-level NAME = ...): the program's state
 for path in sorted((root / "src").rglob("*.py")):
     rel = path.relative_to(root / "src")
     parts = list(rel.with_suffix("").parts)
@@ -22,6 +23,15 @@ for path in sorted((root / "src").rglob("*.py")):
         parts.pop()
     mod = ".".join(parts)
     tree = ast.fix_missing_locations(Canon().visit(ast.parse(path.read_text())))
+    for n_ in ast.walk(tree):
+        if isinstance(n_, ast.Attribute) and isinstance(n_.ctx, ast.Store | ast.Del):
+            stored_attrs.add(n_.attr)
+        if isinstance(n_, ast.ClassDef):
+            for st_ in n_.body:
+                if isinstance(st_, ast.Assign):
+                    stored_attrs.update(t_.id for t_ in st_.targets if isinstance(t_, ast.Name))
+                elif isinstance(st_, ast.AnnAssign) and isinstance(st_.target, ast.Name):
+                    stored_attrs.add(st_.target.id)
     cvs.extend(cond_value_candidates(tree))
     guards.extend(guard_candidates(tree))
 
@@ -60,6 +70,7 @@ out = {
     "aliases": sorted(aliases),
     "cond_values": sorted(set(cvs)),
     "guards": sorted(set(guards)),
+    "stored_attrs": sorted(stored_attrs),
 }
 old = json.loads(P.read_text())
 if set(old.get("functions", [])) != set(out["functions"]):
